@@ -275,6 +275,15 @@ func (m *Impl) registerHost() {
 
 // Run loads and runs src on the (reused) state. budget <= 0 means 5 million instructions.
 func (m *Impl) Run(src string, budget int64) (out Outcome) {
+	return m.runWith(func(L *lua.LState) (*lua.LFunction, error) { return L.Load(strings.NewReader(src), ChunkName) }, budget)
+}
+
+// RunProto runs an already compiled prototype (possibly shared with other states) the same way.
+func (m *Impl) RunProto(proto *lua.FunctionProto, budget int64) (out Outcome) {
+	return m.runWith(func(L *lua.LState) (*lua.LFunction, error) { return L.NewFunctionFromProto(proto), nil }, budget)
+}
+
+func (m *Impl) runWith(load func(L *lua.LState) (*lua.LFunction, error), budget int64) (out Outcome) {
 	if m.Runs >= 2000 && !m.NoAutoFresh {
 		m.fresh()
 	}
@@ -303,7 +312,7 @@ func (m *Impl) Run(src string, budget int64) (out Outcome) {
 		L.SetTop(0)
 		m.resetGlobals()
 	}()
-	fn, err := L.Load(strings.NewReader(src), ChunkName)
+	fn, err := load(L)
 	if err != nil {
 		out.Failed = true
 		out.ErrKind = "syntax"
